@@ -12,6 +12,25 @@
 #include <functional>
 
 namespace mvprog {
+// "gen<K>x<S>[+]": build a program from explorer choices (kind PROG: always fully enumerated) instead of a fixed string: K photon threads on
+// one vCPU, each with 1..S ops drawn from `alphabet` (every combination), each thread starting after 0..2 padding yields ('p': every arrival
+// order); with '+' also 0..1 padding yields ('q') before each later op. Must be called inside the exploration window. "" if `spec` is not gen.
+inline std::string generate(const char* spec, const std::vector<std::string>& alphabet) {
+    int K, S; char plus = 0;
+    if (sscanf(spec, "gen%dx%d%c", &K, &S, &plus) < 2) return "";
+    std::string prog;
+    for (int k = 0; k < K; k++) {
+        if (k) prog += ',';
+        prog += 'p';
+        for (int sl = 0; sl < S; sl++) {
+            int c = pmc_choose((int)alphabet.size() + (sl ? 1 : 0), PMC_PROG, 0, "generated op");     // later slots may stay empty
+            if (c == (int)alphabet.size()) break;
+            if (sl && plus == '+') prog += 'q';
+            prog += alphabet[c];
+        }
+    }
+    return prog;
+}
 struct PT { std::string ops; int os = 0, idx = 0; bool plain_os = false; photon::thread* th = nullptr; std::string result; bool done = false; };
 struct Prog {
     std::vector<PT> pts; int nos = 0;
@@ -31,27 +50,11 @@ struct Prog {
         }
         nos = os + 1;
     }
-    // "gen<K>x<S>[+]": build the program from explorer choices (kind PROG: always fully enumerated) instead of a fixed string: K photon
-    // threads on one vCPU, each with 1..S ops drawn from `alphabet` (every combination), each thread starting after 0..2 padding yields
-    // (every arrival order); with '+' also 0..1 padding yields before each later op. Call inside the exploration window.
+    // "gen<K>x<S>[+]" (see generate() below) or a literal program
     bool parse_or_generate(const char* s, const std::vector<std::string>& alphabet) {
-        int K, S; char plus = 0;
-        if (sscanf(s, "gen%dx%d%c", &K, &S, &plus) < 2) { parse(s); return false; }
-        std::string prog;
-        for (int k = 0; k < K; k++) {
-            if (k) prog += ',';
-            prog += 'p';
-            for (int sl = 0; sl < S; sl++) {
-                // later slots may be empty (shorter programs are part of the enumeration)
-                int c = pmc_choose((int)alphabet.size() + (sl ? 1 : 0), PMC_PROG, 0, "generated op");
-                if (c == (int)alphabet.size()) break;
-                if (sl && plus == '+') prog += 'q';
-                prog += alphabet[c];
-            }
-        }
-        generated = prog;
-        parse(prog.c_str());
-        return true;
+        std::string g = generate(s, alphabet);
+        if (g.empty()) { parse(s); return false; }
+        generated = g; parse(g.c_str()); return true;
     }
     std::string generated;
     // body(pt) runs the op string of one program thread
